@@ -69,6 +69,10 @@ PROPS["C12"] = {
         ("R-ERR-DISCIPLINE", rules_err.rule_err_discipline, {"scope": "statistics"}),
         ("R-PANIC-SITES", _panic_sites, {"scope": "statistics"}),
         ("R-CHI2", _chi2, {}),
+        # "the reported weighted residuals equal the final residuals of the fit": the statistics' inputs are the roles of the
+        # fitted problem, and that problem's cached residuals have the same form Y_w − W·Φ·c with its cached coefficients
+        ("R-STATS-ARGS", rs2.rule_stats_args, {}),
+        ("R-RESID-TERM", rp.rule_resid_term, {}),
     ],
     "explanation": "Guard-before-subtraction and decision-table rules on FitStatistics' constructor and fit_with_statistics: the "
                    "degrees-of-freedom role is N-(M+P) of the model counts, every overflow-checked subtraction of these operands is "
@@ -244,6 +248,7 @@ PROPS["C13"] = {
         # "σ² is the reduced χ²": ‖r_w‖² over the degrees of freedom N−(M+P) of the model counts
         ("R-CHI2", _chi2, {}),
         ("R-DOF-GUARD", _dof_guard, {}),
+        ("R-STATS-ARGS", rs2.rule_stats_args, {}),
         ("R-VAR-SLICES", rs2.rule_var_slices, {}),
         ("R-CORRELATION", rs2.rule_correlation, {}),
     ],
@@ -257,6 +262,8 @@ PROPS["C14"] = {
         ("R-BAND", rs2.rule_band, {}),
         ("R-DOF-GUARD", _dof_guard, {}),
         ("R-MODEL-JAC", rs2.rule_model_jac, {}),
+        # "at the optimum": the model and coefficients the Jacobian is built from are those of the fitted problem
+        ("R-STATS-ARGS", rs2.rule_stats_args, {}),
     ],
     "explanation": "confidence_band_radius continues past its assertion only if p is finite, > 0 and < 1 (else the documented panic); quantile level is the affine form (p+1)/2; degrees of freedom handed to the Student-t quantile are the stored N-(M+P) by pure conversion; "
                    "radius_i = t * sigma_i in lock-step over the samples; sigma_i = sqrt(j_i^T Cov j_i) over the rows of the unweighted model-function Jacobian.",
